@@ -1472,7 +1472,7 @@ impl Counters {
             }
             "iter_ids" => self.iter_ids += 1,
             "probe" => self.get_ok += e["get"].as_array().map_or(0, |a| a.iter().filter(|g| g["ok"] == json!(true)).count()),
-            "build" => {
+            "build" | "build_keyed" | "build_at" => {
                 if ok {
                     self.build_ok += 1
                 } else {
@@ -1853,7 +1853,7 @@ fn keyed_run(tr: &mut Tracer, c: &mut Counters, a: &Args, name: &str, run: usize
 
 // ---------------------------------------------------------------- B1: bulk builds
 
-const PROFILES: &[&str] = &["all_empty", "equal16", "mixed16", "text", "big_first", "ragged"];
+const PROFILES: &[&str] = &["all_empty", "equal16", "mixed16", "text", "big_first", "ragged", "thresh"];
 fn bulk_records(profile: &str, n: usize, r: &mut Rng) -> Vec<Vec<u8>> {
     (0..n)
         .map(|i| match profile {
@@ -1868,6 +1868,18 @@ fn bulk_records(profile: &str, n: usize, r: &mut Rng) -> Vec<Vec<u8>> {
                 }
             }
             "text" => text_line(r),
+            // record lengths t-1, t, t+1 around every threshold of the stores' code, in turn
+            "thresh" => {
+                let t = THRESHOLDS[i % THRESHOLDS.len()];
+                let len = t + (i / THRESHOLDS.len()) % 3 - 1;
+                if i % 2 == 0 {
+                    r.bytes(len)
+                } else {
+                    let mut v = corpus(i as u64, len);
+                    v.truncate(len);
+                    v
+                }
+            }
             "big_first" => {
                 if i == 0 {
                     compressible_64k(r)
